@@ -27,6 +27,8 @@ mod c15;
 mod c16;
 mod c17;
 mod c18;
+mod c19;
+mod c20;
 mod cat;
 mod conv;
 mod dev;
@@ -139,7 +141,7 @@ fn stage_cfg(st: &Stage, thorough: bool, deadline: Instant, exe: &str) -> Explor
         thorough,
         seed: seed(),
         recheck_every: 1000,
-        record_obs: st.hw_compare,
+        record_obs: st.hw_compare || st.twice,
     }
 }
 
@@ -175,13 +177,14 @@ fn run_check(id: &str, tier: &str) -> i32 {
             id, st.space, cfg.bound, r.executions, r.evals, r.distinct_obs, r.violations_total, r.completed_bound, r.capped, r.wall_s
         );
         let mut r = r;
-        if st.hw_compare {
-            // second run with the workers of the crc32c-feature build
-            match std::env::var("MC_HW_EXE") {
+        if st.hw_compare || st.twice {
+            // second run with the workers of the crc32c-feature build (or fresh workers of this build)
+            let other = if st.twice { Ok(exe.clone()) } else { std::env::var("MC_HW_EXE") };
+            match other {
                 Ok(hw) if std::path::Path::new(&hw).exists() => {
                     let cfg2 = stage_cfg(st, thorough, Instant::now() + share, &hw);
                     let r2 = explore(&cfg2);
-                    eprintln!("[{}] stage {:20} (crc32c feature build) exec={} outcomes={}", id, st.space, r2.executions, r2.distinct_obs);
+                    eprintln!("[{}] stage {:20} ({}) exec={} outcomes={}", id, st.space, if st.twice { "second set of worker processes" } else { "crc32c feature build" }, r2.executions, r2.distinct_obs);
                     r.machinery_errors.extend(r2.machinery_errors.iter().cloned());
                     if r2.capped || r.capped {
                         r.capped = true;
@@ -197,8 +200,8 @@ fn run_check(id: &str, tier: &str) -> i32 {
                                 r.violations_total += 1;
                                 r.violations.push(explore::ViolationRec {
                                     choices: explore::parse_choices(c1),
-                                    sig: format!("{}/backends-differ", check.id),
-                                    detail: format!("case [{c1}] of space {} yields observation {o1:016x} with the built-in CRC and {o2:016x} with the crc32c feature (file bytes / verdicts differ)", st.space),
+                                    sig: format!("{}/{}", check.id, if st.twice { "nondeterministic-across-processes" } else { "backends-differ" }),
+                                    detail: format!("case [{c1}] of space {} yields observation {o1:016x} in the first run and {o2:016x} in the second ({})", st.space, if st.twice { "separate worker processes of the same build" } else { "built-in CRC vs crc32c feature" }),
                                     desc: String::new(),
                                     kind: "oracle",
                                 });
